@@ -70,6 +70,12 @@ func (e *Engine) intrinsicFor(fn *ssa.Function) intrinsic {
 			h = hh
 		}
 	}
+	if h == nil && strings.Contains(name, "store/prolly.GenericMutableMap[") {
+		// abstract dictionary behind *prolly.MutableMap (a generic instantiation: matched by method name)
+		if hh, ok := e.intrinsics["prolly.MutableMap:"+fn.Name()]; ok {
+			h = hh
+		}
+	}
 	if h == nil && strings.HasPrefix(fn.Name(), "verif") && fn.Pkg != nil {
 		if hh, ok := e.intrinsics["verif:"+fn.Name()]; ok {
 			h = hh
